@@ -1,10 +1,13 @@
 #!/bin/sh
-# usage: checklib/try_seeded.sh <property id> <patch.diff> [tier]   — applies the patch to /repo, runs the check, undoes the patch
+# usage: checklib/try_seeded.sh <property id> <patch.diff> [tier]   — applies the patch to the repo, runs the check, undoes the patch
+# (the repo is $VERIF_REPO, default /repo; the verif tree is the one this script lives in)
 set -u
 ID="$1"; PATCH="$2"; TIER="${3:-quick}"
-cd /repo || exit 2
+REPO="${VERIF_REPO:-/repo}"
+V="$(cd "$(dirname "$0")/.." && pwd)"
+cd "$REPO" || exit 2
 git diff --quiet || { echo "repo not clean"; exit 2; }
 git apply "$PATCH" || { echo "patch does not apply"; exit 2; }
-(cd /verif && ./check "$ID" --tier "$TIER"); RC=$?
-git -C /repo checkout -- .
+(cd "$V" && ./check "$ID" --tier "$TIER"); RC=$?
+git -C "$REPO" checkout -- .
 echo "exit=$RC"
